@@ -448,6 +448,49 @@ class World:
         self.handled.append(rec)
         return rec
 
+    def claim_only(self, row_id: int):
+        """A worker polls the row and stalls before handling it: the claimed copy (its delivery count
+        is a snapshot taken now) is kept, the lock is left to lapse."""
+        self.expose(row_id)
+        msg = self.queue.poll_one()
+        self.unhide()
+        if msg is None:
+            return None
+        r = self._exec_side("SELECT locked_until FROM queue_messages WHERE id = ?", (row_id,)).fetchone()
+        if r is not None and r[0]:
+            self.withheld[row_id] = r[0]
+        self.stale_claims = getattr(self, "stale_claims", {})
+        self.stale_claims[row_id] = msg
+        return msg
+
+    def deliver_stale(self, row_id: int) -> dict | None:
+        """The stalled worker carries on with the copy it claimed in claim_only()."""
+        msg = getattr(self, "stale_claims", {}).pop(row_id, None)
+        if msg is None:
+            return None
+        t = threading.current_thread().name
+        before_calls, before_ledger, before_commits = len(self.handler_calls), len(self.ledger), len(self.commits)
+        rec = {"row": row_id, "ack": True, "step": len(self.handled), "stale_copy": True, "type": type(msg).__name__, "polled": msg.message_id}
+        self.current[t] = (rec["type"], msg.message_id)
+        self.current["__handling__"] = msg.message_id
+        try:
+            try:
+                self.processor._handle_message(msg)
+                self.queue.ack(msg)
+                rec["error"] = None
+            except Exception as e:
+                rec["error"] = f"{type(e).__name__}: {e}"
+                msg.set_error_context(e)
+                self.queue.reschedule(msg, self.processor.config.retry_delay)
+        finally:
+            self.current.pop(t, None)
+            self.current.pop("__handling__", None)
+        rec["handled"] = len(self.handler_calls) > before_calls
+        rec["executions"] = len(self.ledger) - before_ledger
+        rec["commits"] = (before_commits, len(self.commits))
+        self.handled.append(rec)
+        return rec
+
     # ---------------------------------------------------------------- actions
     def run_recovery(self) -> list:
         t = threading.current_thread().name
